@@ -8,4 +8,4 @@ Extraction Language OCaml.
 Extraction "Extract/out/Gcm.ml"
   key_expansion cipher gcm_ae_rk gcm_ad_rk gcm_hash_key_rk
   gcm_ctx_bytes gcm_precomp gcm_init gcm_update gcm_finalize gcm_oneshot gcm_stream
-  gcm_oneshot_aes gcm_stream_aes.
+  gcm_oneshot_aes gcm_stream_aes defer_none defer_vaes.
